@@ -1602,6 +1602,12 @@ func (stmt *UpsertIntoStmt) execAt(ctx context.Context, tx *SQLTx, params map[st
 						}
 					}
 				}
+
+				// the row that will be written is the existing one with the DO UPDATE
+				// assignments applied: its constraints must hold as well
+				if err := checkConstraints(tx, table.checkConstraints, r, table.name); err != nil {
+					return nil, err
+				}
 			}
 		}
 
